@@ -59,6 +59,8 @@ pub struct InnerScript {
     /// sequence consumed per poll_ready call (0 ready, 1 pending, 2 error); afterwards ready.
     pub ready_script: HashMap<u8, Vec<u8>>,
     pub strict: bool,
+    /// a fresh clone of service `svc` only becomes ready this many ms after it was created
+    pub clone_warmup_ms: HashMap<u8, u64>,
 }
 
 pub struct World {
